@@ -68,7 +68,13 @@ $(B)/bin/$(1): $(2) $(B)/$(3)/libcmi.a $(wildcard $(V)/lib/*.hpp)
 BINS += $(B)/bin/$(1)
 endef
 
+# PARTS=<ids> restricts the harness fragments that are read (a broken fragment
+# of another property then cannot break this build); default: all
+ifeq ($(PARTS),)
 include $(wildcard $(V)/harness/*/part.mk)
+else
+include $(foreach p,$(PARTS),$(V)/harness/$(p)/part.mk)
+endif
 
 bins: $(BINS)
 
